@@ -11,9 +11,14 @@ CVC5_MS = int(os.environ.get("PYVC_CVC5_MS", "6000"))
 CVC5 = "/usr/bin/cvc5"
 
 
-def _solver(hyps, goal, mbqi, timeout_ms):
+def _solver(hyps, goal, mbqi, timeout_ms, seed=None, relevancy=None):
     s = z3.Solver()
     s.set("timeout", timeout_ms)
+    if relevancy is not None:
+        s.set("relevancy", relevancy)
+    if seed is not None:
+        s.set("random_seed", seed)
+        s.set("smt.random_seed", seed)
     s.set("auto_config", False)
     s.set("mbqi", mbqi)
     for h in hyps:
@@ -41,6 +46,19 @@ def discharge(ob):
     r = s.check()
     backend = "z3(e-matching)"
     model_solver = s
+    if r == z3.unknown:
+        # Trigger-based instantiation is sensitive to the search order: z3's relevancy filter (matching
+        # only on terms of currently relevant atoms) can make it saturate without the needed instance, and
+        # an unlucky case split can run into a long chain of irrelevant instances.  A small portfolio of
+        # (relevancy, seed) restarts with short budgets decides these cases; every attempt is the same
+        # sound procedure, so "unsat" from any of them is a proof.
+        quick = time.time() - t0 < 2.0
+        plan = [(0, None, Z3_MS // 2), (2, 1, Z3_MS // 4), (2, 2, Z3_MS // 4), (0, 3, Z3_MS // 4)] if quick else [(2, 1, Z3_MS // 4), (2, 2, Z3_MS // 4), (0, 3, Z3_MS // 4)]
+        for rel_, seed_, ms_ in plan:
+            s1 = _solver(ob.hyps, ob.goal, False, ms_, seed=seed_, relevancy=rel_)
+            if s1.check() == z3.unsat:
+                r, s, model_solver, backend = z3.unsat, s1, s1, f"z3(e-matching,relevancy={rel_},seed={seed_})"
+                break
     if r == z3.unknown:
         # pass 2: look for a *small* counter-model (lengths <= 2, 3; integers in [-6, 6]).  Adding
         # constraints can only lose models, so a model found here is a genuine refutation.
@@ -70,6 +88,12 @@ def discharge(ob):
         r = s.check()
         backend = "z3(mbqi)"
         model_solver = s
+        if r == z3.unknown:
+            # MBQI is sensitive to the search order: one retry with another seed
+            s2 = _solver(ob.hyps, ob.goal, True, Z3_MS // 2, seed=11)
+            r2_ = s2.check()
+            if r2_ != z3.unknown:
+                r, s, model_solver, backend = r2_, s2, s2, "z3(mbqi,seed 11)"
     if r == z3.unsat:
         rec.update(status="discharged", backend=backend)
     elif r == z3.sat:
